@@ -516,3 +516,56 @@ func (env *rcEnv) finish() {
 	<-env.sc.Ended()
 	time.Sleep(time.Second) // goroutines of the client asleep in a jitter hook wake up and see the closed client
 }
+
+// rcStress: real parallelism (no bubble): `callers` goroutines each send `per` unbatched Gets for rows unique to caller and
+// request through ONE connection; the server echoes the row of the request under the call id of the request. Returns what
+// the callers observed to be wrong (a response that is not theirs, an error, no answer) and what the server's decoder found
+// wrong on the wire (a call id used twice, ...). This is the only way to meet windows of a few instructions between two
+// senders (e.g. in the allocation of call ids) that no hook sits in.
+func rcStress(callers, per int) (wrong []string, wire []string) {
+	var envp atomic.Pointer[rcEnv]
+	env := newRCEnv(rcOpts{queueSize: 1, readTimeout: 30 * time.Second, bind: func(e *rcEnv) { envp.Store(e) },
+		auto: func(e *rcEnv, req *verifsim.Request) {
+			tags := rcTags(req)
+			var cb []byte
+			res := verifsim.ResultMsg(cellsFor(tags[0], 1), true, &cb)
+			e.sc.Send(verifsim.Response{CallID: req.CallID, Msg: &pb.GetResponse{Result: res}, CellBlock: cb})
+		}})
+	var mu sync.Mutex
+	var wg sync.WaitGroup
+	for g := 0; g < callers; g++ {
+		wg.Add(1)
+		go func() {
+			defer wg.Done()
+			for i := 0; i < per; i++ {
+				row := fmt.Sprintf("s%02d-%06d", g, i)
+				call, _ := hrpc.NewGet(context.Background(), []byte("t"), []byte(row), hrpc.SkipBatch())
+				call.SetRegion(env.reg)
+				env.c.QueueRPC(call)
+				select {
+				case r := <-call.ResultChan():
+					got, n := rcResultTag(r)
+					if r.Error != nil || got != row || n != 1 {
+						mu.Lock()
+						if len(wrong) < 5 {
+							wrong = append(wrong, fmt.Sprintf("caller %d asked for %q and was given row %q (%d cells, error %v)", g, row, got, n, r.Error))
+						}
+						mu.Unlock()
+						return
+					}
+				case <-time.After(20 * time.Second):
+					mu.Lock()
+					wrong = append(wrong, fmt.Sprintf("caller %d: no answer for %q within 20 s", g, row))
+					mu.Unlock()
+					return
+				}
+			}
+		}()
+	}
+	wg.Wait()
+	wire = env.sc.GetProblems()
+	env.c.Close()
+	env.srv.Close()
+	close(env.stop)
+	return wrong, wire
+}
